@@ -206,4 +206,16 @@ def check(P: Project, R: Report) -> None:
         n6 += 1
         R.ob("R6", "the request id is the caller's or uuid4-derived", ok6, f"{W.send.module.rel}:{W.send.node.lineno}", f"id origin `{o[:80]}`" + (f": {why6}" if why6 else ""), sample=f"R6 id := {o[:60]}")
     R.need(n6 >= 1, "anchor: no path of send_message builds the request")
+    # … and no function of the package picks the id for its caller (the caller's own id handed on, or none at all)
+    from ._sendmsg import request_id_problems
+
+    n_calls = sum(1 for f_ in P.funcs.values() for c_ in walk_local(f_.node) if isinstance(c_, ast.Call) and f_ is not W.send and P.resolve_call(f_, c_) is W.send)
+    R.need(n_calls >= 10, f"only {n_calls} calls of send_message found in the package (19 confirmed by hand)")
+    R.call_sites += n_calls
+    probs6 = request_id_problems(P, W.send)
+    for f_, c_, t_ in probs6:
+        R.ob("R6", f"{f_.qual} leaves the request id to its caller or to send_message", False, f"{f_.module.rel}:{c_.lineno}",
+             f"passes message_id=`{t_[:60]}`: every request this function sends on a pair of streams carries that id, so two of them outstanding — or a retry after a timeout, with the late answer to the first attempt still to come — are told apart by nothing, and the id filter hands the second caller the first one's response")
+    if not probs6:
+        R.ob("R6", "no library function chooses a request id for its caller", True, W.send.module.rel, "", sample=f"R6 {n_calls} calls of send_message in the package: message_id absent or the caller's own")
 
